@@ -202,7 +202,7 @@ func (w *hWorld) hProvenance(prop string) {
 // classifyProvenance names the known finding (if any) whose input shape is
 // present for this parameter.
 func (w *hWorld) classifyProvenance(par hLabel, srcs []hVal) string {
-	return ""
+	return w.provFinding
 }
 
 // HarnessC01 — every injected value is a label- and type-correct binding.
